@@ -71,10 +71,12 @@ pub fn run(case: &Value) -> Value {
                     let label = |n: &xml_dom::XmlNode| -> String { format!("{}|{}", n.node_name(), n.node_value().ok().flatten().unwrap_or_default()) };
                     let labels: Vec<String> = kids.iter().map(|n| label(n)).collect();
                     let kinds: Vec<String> = kids.iter().map(|n| format!("{:?}", n.node_type())).collect();
+                    // nodes are identified by their document-order key (labels may repeat)
+                    let orders: Vec<usize> = kids.iter().map(|n| n.order()).collect();
                     let index = |n: Option<xml_dom::XmlNode>| -> i64 {
                         match n {
                             None => -1,
-                            Some(n) => labels.iter().position(|l| *l == label(&n)).map(|p| p as i64).unwrap_or(-2),
+                            Some(n) => orders.iter().position(|o| *o == n.order()).map(|p| p as i64).unwrap_or(-2),
                         }
                     };
                     let next: Vec<i64> = kids.iter().map(|n| index(n.next_sibling())).collect();
